@@ -104,14 +104,18 @@ def replay_vectors(res: Result, vectors: list):
             except ZeroDivisionError:
                 res.count('m2_crash_vectors_confirmed')
         else:
-            got = ReservoirPressurePredictor(vec['L'], vec['n'], f(vec['p0']), f(vec['ov']), f(vec['rate']))
+            try:
+                got = ReservoirPressurePredictor(vec['L'], vec['n'], f(vec['p0']), f(vec['ov']), f(vec['rate']))
+                got2 = InjectionReservoirPressurePredictor(vec['L'], vec['n'], f(vec['p0']), f(vec['infl']))
+            except Exception as ex:  # noqa: BLE001  (the model says these inputs give a profile)
+                got = got2 = []
+                detail['raised'] = f'{type(ex).__name__}: {ex}'
             want = [Fraction(x) for x in vec['p']]
             ok = len(got) == len(want) and all(abs(Fraction(float(g)) - w_) <= tol * 2000 for g, w_ in zip(got, want))
-            got2 = InjectionReservoirPressurePredictor(vec['L'], vec['n'], f(vec['p0']), f(vec['infl']))
             want2 = [Fraction(x) for x in vec['q']]
             ok = ok and len(got2) == len(want2) and all(abs(Fraction(float(g)) - w_) <= tol * 2000 for g, w_ in zip(got2, want2))
             if not ok:
-                detail = {'got_p': [float(g) for g in got], 'got_q': [float(g) for g in got2]}
+                detail.update({'got_p': [float(g) for g in got], 'got_q': [float(g) for g in got2]})
         if not ok:
             bad += 1
             if bad <= 20:
